@@ -99,3 +99,25 @@ VARIANTS += [
  dict(name='result-object-name-of-another-value', file=M, expect='flagged(confined/(*ngo/plugin.CLIManager).Install)', find=NM_OLD, replace=nm_new(),
       edits=[nm_helper('\tif err := validatePluginName(candidate); err != nil {\n\t\treturn nil, err\n\t}\n\tc := &chosenName{}\n\tc.name = candidate + "/.."\n\treturn c, nil\n'), NM_USE]),
 ]
+
+# the entry-type test as one mask comparison; the walk callback as a method value with the list in a receiver field (batch 5)
+def ls_mask(cond):
+    return '\t\tif ' + cond + ' {\n\t\t\t// Ignore non-directories and symlinked directories.\n\t\t\treturn nil\n\t\t}\n'
+LIST_OLD = ('\tvar plugins []string\n\tif err := fs.WalkDir(m.pluginFS, ".", func(dir string, d fs.DirEntry, err error) error {\n\t\tif err != nil {\n\t\t\tif errors.Is(err, os.ErrNotExist) {\n\t\t\t\treturn nil\n\t\t\t}\n\t\t\treturn err\n\t\t}\n'
+            '\t\tif dir == "." {\n\t\t\t// Ignore root dir.\n\t\t\treturn nil\n\t\t}\n\t\ttyp := d.Type()\n' + LS_OLD + '\n\t\t// add plugin name\n\t\tplugins = append(plugins, d.Name())\n\t\treturn fs.SkipDir\n\t}); err != nil {\n'
+            '\t\treturn nil, PluginDirectoryWalkError(fmt.Errorf("failed to list plugin: %w", err))\n\t}\n\treturn plugins, nil\n}\n')
+def list_method(cond, before=''):
+    return ('\tvar found pluginDirs\n\tif err := fs.WalkDir(m.pluginFS, ".", found.visit); err != nil {\n\t\treturn nil, PluginDirectoryWalkError(fmt.Errorf("failed to list plugin: %w", err))\n\t}\n\treturn found.names, nil\n}\n\n'
+            'type pluginDirs struct {\n\tnames []string\n}\n\nfunc (p *pluginDirs) visit(dir string, d fs.DirEntry, err error) error {\n\tswitch {\n\tcase err != nil:\n\t\tif errors.Is(err, os.ErrNotExist) {\n\t\t\treturn nil\n\t\t}\n\t\treturn err\n'
+            '\tcase dir == ".":\n\t\treturn nil\n' + before + '\tcase ' + cond + ':\n\t\treturn nil\n\t}\n\tp.names = append(p.names, d.Name())\n\treturn fs.SkipDir\n}\n')
+VARIANTS += [
+ dict(name='benign-list-one-mask-comparison', file=M, expect='silent', find=LS_OLD, replace=ls_mask('typ&(fs.ModeDir|fs.ModeSymlink) != fs.ModeDir')),
+ dict(name='benign-list-callback-method-value-mask', file=M, expect='silent', find=LIST_OLD, replace=list_method('d.Type()&(fs.ModeDir|fs.ModeSymlink) != fs.ModeDir')),
+ dict(name='benign-list-callback-method-value-predicates', file=M, expect='silent', find=LIST_OLD, replace=list_method('!d.Type().IsDir() || d.Type()&fs.ModeSymlink != 0')),
+ dict(name='list-mask-without-symlink-bit', file=M, expect='flagged(list/real-directories-only)', find=LS_OLD, replace=ls_mask('typ&fs.ModeDir != fs.ModeDir')),
+ dict(name='list-mask-compared-with-both-bits', file=M, expect='flagged(list/)', find=LS_OLD, replace=ls_mask('typ&(fs.ModeDir|fs.ModeSymlink) != fs.ModeDir|fs.ModeSymlink')),
+ dict(name='list-mask-test-inverted', file=M, expect='flagged(list/)', find=LS_OLD, replace=ls_mask('typ&(fs.ModeDir|fs.ModeSymlink) == fs.ModeDir')),
+ dict(name='list-method-value-records-symlinked-directories', file=M, expect='flagged(list/real-directories-only)', find=LIST_OLD, replace=list_method('d.Type()&fs.ModeDir == 0')),
+ dict(name='list-method-value-drops-dotted-names', file=M, expect='flagged(list/complete)', find=LIST_OLD,
+      replace=list_method('d.Type()&(fs.ModeDir|fs.ModeSymlink) != fs.ModeDir', before='\tcase len(d.Name()) > 0 && d.Name()[0] == \'.\':\n\t\treturn fs.SkipDir\n')),
+]
